@@ -258,6 +258,9 @@ class C06(fw.Prop):
                    ["Call", ["P", [], ["F", [], [], []]], None, None]):
             for d in ("in", "out"):
                 out.append({"kind": "port", "op": op, "dir": d, "z": -1})
+        # LoadFunc.num_out was a dataclasses.Field object (the class is not a dataclass)
+        out.append({"kind": "sig", "op": ["LoadFunc", ["P", [], ["F", [["Qubit"]], [], []]], None, None]})
+        out.append({"kind": "sig", "op": ["LoadFunc", poly, inst, targs]})
         return out
 
     # ------------------------------------------------------------------ running the implementation
